@@ -175,6 +175,12 @@ pub trait Propagator {
                 final(self).in_sync(context.assignments.live@);
 }
 pub struct ExplanationContext<'a> { pub assignments: &'a Assignments }
+// the decision level is a function of the store identity
+pub uninterp spec fn decision_level_of(state: int) -> usize;
+impl Assignments {
+    #[verifier::external_body]
+    pub fn get_decision_level(&self) -> (r: usize) ensures r == decision_level_of(self.state@) { unimplemented!() }
+}
 pub open spec fn valid_conflict(live: Live, c: Model, conj: PropositionalConjunction) -> bool {
     (forall|a: Asg| #![trigger live(a)] live(a) ==> conj_holds(conj, a))
     && (forall|a: Asg| #![trigger conj_holds(conj, a)] conj_holds(conj, a) ==> !c(a))
